@@ -16,14 +16,14 @@ SUPPLEMENTARY = {"miri", "nohooks", "stdbuild", "constrained", "fvbuild"}
 
 PROPS = {
     "C01": {"level": "exploration", "stages": ["native"]},
-    "C02": {"level": "exploration", "stages": ["native", "nohooks"]},
-    "C03": {"level": "exploration", "stages": ["native"]},
+    "C02": {"level": "exploration", "stages": ["native", "nohooks", "fvbuild"]},
+    "C03": {"level": "exploration", "stages": ["native", "fvbuild"]},
     "C04": {"level": "fault_enumeration", "stages": ["native", "fvbuild"]},
     "C05": {"level": "exploration", "stages": ["native"]},
     "C06": {"level": "exploration", "stages": ["native", "nohooks", "constrained", "miri"]},
     "C07": {"level": "exploration", "stages": ["native"]},
     "C08": {"level": "exploration", "stages": ["native"]},
-    "C09": {"level": "exploration", "stages": ["native", "stdbuild"]},
+    "C09": {"level": "exploration", "stages": ["native", "fvbuild"]},
     "C10": {"level": "exploration", "stages": ["native", "constrained"]},
     "C11": {"level": "fault_enumeration", "stages": ["native", "nohooks", "constrained", "miri"]},
     "C12": {"level": "exploration", "stages": ["native"], "thorough_extra": ["miri"]},
@@ -220,7 +220,8 @@ class Run:
         res = os.path.join(self.results, f"{self.prop}-fv.json")
         if os.path.exists(res):
             os.remove(res)
-        c, text = sh([os.path.join(tdir, "release", "hbsmon"), self.prop, "--tier", self.tier, "--seed", str(self.seed), "--out", res], cwd=self.root, env=self.env, timeout=WATCHDOG[self.tier])
+        # another seed than the native stage, so that the second build also sees other inputs
+        c, text = sh([os.path.join(tdir, "release", "hbsmon"), self.prop, "--tier", self.tier, "--seed", str(self.seed + 1), "--out", res], cwd=self.root, env=self.env, timeout=WATCHDOG[self.tier])
         if c != 0 or not os.path.exists(res):
             return {"inconclusive": [f"driver of the fast_verify build failed (exit {c}): " + text[-400:]]}
         return json.load(open(res))
